@@ -422,6 +422,18 @@ class CallGraph:
                     init = t[1].find_method("__init__")
                     if init is not None:
                         out.add(init.qualname)
+            # a package function handed over as a VALUE (callback of re.sub, key=, map, ...) is called by somebody: reachable from here
+            args = list(cs.term[2]) + [v for k, v in cs.term[3]]
+            for a in args:
+                if isinstance(a, tuple) and a and a[0] in ("attr", "global"):
+                    try:
+                        for t in self.types_of(a, cs.owner):
+                            if t[0] == "func":
+                                out.add(t[1].qualname)
+                    except Exception:
+                        pass
+                if isinstance(a, tuple) and a and a[0] == "lambda":
+                    pass  # the lambda's own calls are effects of the owner already
         return out
 
     def reachable(self, roots):
